@@ -51,6 +51,14 @@ CLAIMS = {
          "the named declaration, the trait method signature or the constructor has parameters): a deterministic catalogue of every call "
          "form x declared count 0..3 x written count x position, each with an accepted twin, must be rejected by the typer; a model-free "
          "count oracle runs on every real stage dump. "
+         "Argument type (Props/C03ArgTy.lean: compatTy_eq_of_noWildLen, wt_call_arg_types, wt_call_arg_type_at, wt_call_result_type, "
+         "wt_dyncall_arg_types, wt_traitcall_arg_types, wt_constr_arg_types — in a dump that passes Wt every argument of every call has "
+         "exactly the type the callee annotation / trait method signature / field list declares at its position, the only licence being "
+         "the wildcard array length of array_get/array_set): a deterministic catalogue (harness/src/c03argty.rs) of every call form "
+         "(incl. dot and path calls of methods that a generic inherent impl AND an impl of one instantiation define, and of methods only "
+         "an instantiation impl defines) x declared count x every argument position whose type the call fixes x two wrong literals x "
+         "position of the call, each with an accepted twin, must be rejected by the typer; an accepted variant must be flagged by Wt on "
+         "its Core dump. "
          "Round 10 (Props/C03pres.lean) adds the PRESERVATION theorems for the pass models (tied to the Rust by C09/C08/C07/C06): "
          "anf_preserves_wt / anf_file_preserves_wt (ANF keeps Wt.errs = [] and the type: typed-context invariant over the direct-style "
          "reading of the CPS functions), anf_preserves_closed / anf_file_preserves_closed (closedFns), anf_preserves_scoped (scope "
